@@ -5,10 +5,10 @@
 (* Every critical section of parallel.rs is replayed through ParBnB.tla's operators; the scalar  *)
 (* snapshot taken by the hook right after each lock acquisition must agree with the state the    *)
 (* specification predicts (scheduled mode), and is adopted in any case.                          *)
-EXTENDS ParBnB, DDContract, Json, IOUtils
+EXTENDS ParBnB, DDContract, DominanceStore, Json, IOUtils
 Rec == ndJsonDeserialize(IOEnv.TRACE)
-VARIABLES l, I, HT, cfg, run, role, level, P, wk, fired, primalMax, devs
-vars == <<l, I, HT, cfg, run, role, level, P, wk, fired, primalMax, devs>>
+VARIABLES l, I, HT, cfg, run, role, level, P, wk, fired, primalMax, store, devs
+vars == <<l, I, HT, cfg, run, role, level, P, wk, fired, primalMax, store, devs>>
 None == <<>>
 MaxW == 17
 Add(d, tags) == IF Cardinality(d) < 60 THEN d \cup {<<t, l, run, "-">> : t \in tags} ELSE d
@@ -19,7 +19,7 @@ W0 == [node |-> None, sec |-> "-", bev |-> NegInf, phase |-> "idle", cand |-> No
 EmptyP == [fringe |-> EmptyBag, table |-> CEmpty, ongoing |-> 0, explored |-> 0, bestLb |-> NegInf, hasSol |-> FALSE, bestUb |-> PosInf, abort |-> FALSE,
            open |-> <<>>, ongoingBy |-> <<>>, first |-> 0, ubVec |-> <<>>]
 Init == /\ l = 1 /\ I = None /\ HT = None /\ cfg = None /\ run = 0 /\ role = "-" /\ level = "full" /\ P = EmptyP
-        /\ wk = [w \in 0..MaxW |-> W0] /\ fired = FALSE /\ primalMax = NegInf /\ devs = {}
+        /\ wk = [w \in 0..MaxW |-> W0] /\ fired = FALSE /\ primalMax = NegInf /\ store = <<>> /\ devs = {}
 Ev(e) == l <= Len(Rec) /\ Rec[l].ev = e /\ l' = l + 1
 Me == Rec[l].w
 
@@ -29,14 +29,23 @@ TReset ==
      /\ I' = e.inst /\ HT' = (IF e.inst = I THEN HT ELSE HTable(e.inst))
      /\ cfg' = e.cfg /\ run' = e.run /\ role' = e.role /\ level' = e.level
      /\ P' = [EmptyP EXCEPT !.open = [d \in 0..e.inst.n |-> 0], !.ongoingBy = [d \in 0..e.inst.n |-> 0], !.ubVec = [w \in 1..e.cfg.nspawn |-> Idle]]
-     /\ wk' = [w \in 0..MaxW |-> W0] /\ fired' = FALSE /\ primalMax' = NegInf
+     /\ wk' = [w \in 0..MaxW |-> W0] /\ fired' = FALSE /\ primalMax' = NegInf /\ store' = <<>>
      /\ devs' = (IF e.inst = I \/ WellFormed(I', HT') THEN devs ELSE Add(devs, {"HARNESS ill-formed-instance"}))
-Same == UNCHANGED <<I, HT, cfg, run, role, level>>
+Same == UNCHANGED <<I, HT, cfg, run, role, level, store>>
+SameBut == UNCHANGED <<I, HT, cfg, run, role, level>>
 
 TPrimal == /\ Ev("set_primal") /\ P' = PPrimal(P, Rec[l].value) /\ primalMax' = Max2(primalMax, Rec[l].value)
            /\ devs' = Add(devs, Tag(Rec[l].lb_after # P'.bestLb, "C14 set-primal-value"))
            /\ Same /\ UNCHANGED <<wk, fired>>
-TNoop == /\ (Ev("cinit") \/ Ev("wstart") \/ Ev("notified") \/ Ev("dquery") \/ Ev("dclear_layer") \/ Ev("poll"))
+TDQuery ==
+  /\ Ev("dquery")
+  /\ LET e == Rec[l]  c == DomCoords(I, e.st)  k == DomKey(I, e.st)
+         front == DFront(store, e.depth, k)
+         exp == IsDominated(front, c, e.value, TRUE) IN
+     /\ devs' = Add(devs, Tag(Full /\ e.dominated # exp, "C10 verdict") \cup Tag(Full /\ e.dominated /\ exp /\ ~ThresholdSound(front, c, e.value, e.threshold, TRUE), "C10 threshold"))
+     /\ store' = (IF e.dominated THEN store ELSE DSet(store, e.depth, k, DInsert(front, c, e.value, TRUE)))
+  /\ SameBut /\ UNCHANGED <<P, wk, fired, primalMax>>
+TNoop == /\ (Ev("cinit") \/ Ev("wstart") \/ Ev("notified") \/ Ev("dclear_layer") \/ Ev("poll"))
          /\ Same /\ UNCHANGED <<P, wk, fired, primalMax, devs>>
 TCutoff == Ev("cutoff_fires") /\ fired' = TRUE /\ Same /\ UNCHANGED <<P, wk, primalMax, devs>>
 
@@ -208,7 +217,7 @@ TReturn ==
      devs' = (IF Cardinality(devs) < 60 THEN devs \cup {<<t, l, run, Sig(r)>> : t \in RetTags(r) \cup endTags} ELSE devs)
   /\ Same /\ UNCHANGED <<P, wk, fired, primalMax>>
 
-Next == TReset \/ TPrimal \/ TNoop \/ TCutoff \/ TLocked \/ TPush \/ TPop \/ TPopNone \/ TFClear \/ TWorkload \/ TWait
+Next == TReset \/ TPrimal \/ TDQuery \/ TNoop \/ TCutoff \/ TLocked \/ TPush \/ TPop \/ TPopNone \/ TFClear \/ TWorkload \/ TWait
         \/ TCGet \/ TCUpd \/ TCClearLayer \/ TCClear \/ TCompile \/ TCompiled \/ TCutset \/ TExit \/ TStuck \/ TReturn
 Spec == Init /\ [][Next]_vars
 Report == l = Len(Rec) + 1 => PrintT(<<"RESULT", ToJson([total |-> Len(Rec), devs |-> devs])>>)
